@@ -11,7 +11,7 @@ import time
 import z3
 
 from . import smt
-from .values import (Sym, SInt, SBool, SVal, SKey, SSeq, SView, SMap, SObj, ClassRef, Closure, BoundMethod,
+from .values import (LazyDict, unmap, Sym, SInt, SBool, SVal, SKey, SSeq, SView, SMap, SObj, ClassRef, Closure, BoundMethod,
                      Builtin, AbstractCallable, PyExc, OutOfSubset, exc_isinstance)
 
 
@@ -166,6 +166,7 @@ class Interp(object):
         return self.ctx.branch(t)
 
     def truth_term(self, v):
+        v = unmap(v)
         if isinstance(v, SBool):
             return v.term
         if isinstance(v, SInt):
@@ -510,6 +511,8 @@ class Interp(object):
             raise OutOfSubset('for/else over symbolic data')
         # R-loop: invariant holds at 0; arbitrary iteration preserves it; after the loop Inv(n).
         n = seq.length
+        if getattr(spec, 'enter', None):
+            spec.enter(self, fr.env)
         self.ctx.oblige('%s/loop%d/inv.init' % (self.world.qualname(fr.closure), ordinal), spec.inv(self, fr.env, z3.IntVal(0), seq), kind='loop')
         which = self.ctx.branch(self.ctx.fresh('loop%d_iter' % ordinal, z3.BoolSort()))
         spec.havoc(self, fr.env)
@@ -553,6 +556,8 @@ class Interp(object):
             self.exec_block(st.orelse)
             return
         q = self.world.qualname(fr.closure)
+        if getattr(spec, 'enter', None):
+            spec.enter(self, fr.env)
         self.ctx.oblige('%s/loop%d/inv.init' % (q, ordinal), spec.inv(self, fr.env, None, None), kind='loop')
         which = self.ctx.branch(self.ctx.fresh('loop%d_iter' % ordinal, z3.BoolSort()))
         spec.havoc(self, fr.env)
@@ -644,7 +649,7 @@ class Interp(object):
         return set(self._elts(n.elts))
 
     def e_Dict(self, n):
-        d = {}
+        d = LazyDict()
         for k, v in zip(n.keys, n.values):
             if k is None:
                 raise OutOfSubset('dict unpacking')
@@ -771,6 +776,10 @@ def explore(world, run_path, task_name, max_paths=4000):
                 pass
         except OutOfSubset as e:
             results.append(PathResult('oos', None, ctx, interp, note=str(e)))
+        except (z3.Z3Exception, TypeError, AttributeError, KeyError, IndexError, ValueError, AssertionError) as e:
+            import traceback
+            results.append(PathResult('oos', None, ctx, interp, note='engine could not model this path (%s: %s) at %s' % (
+                type(e).__name__, str(e)[:200], traceback.format_exc().strip().splitlines()[-3].strip()[:160])))
         work.extend(ctx.spawned)
         if len(results) > max_paths:
             results.append(PathResult('oos', None, ctx, interp, note='path cap %d exceeded' % max_paths))
